@@ -421,6 +421,11 @@ var commentFrames = []struct {
 	{"[%s%s]", "[]"},
 	{"<%= for (x) in two { %>[%sy%s]<% } %>%s", "[y][y]"},
 	{"[<% let q = 4 %>%s<%= q %>]", "[4]"},
+	// literal text after the comment that looks like the rest of a tag: a closer, a line comment, blank lines
+	{"[%s\n%>b]", "[\n%>b]"},
+	{"[%s %>b]", "[ %>b]"},
+	{"[%s\n# x %>\n%>b]", "[\n# x %>\n%>b]"},
+	{"<%= if (true) { %>[%s\n\n\t%>b]<% } %>", "[\n\n\t%>b]"},
 }
 
 func checkComment(r *vk.Run, c CommentCase) *vk.Fail {
@@ -1258,7 +1263,7 @@ func checkDeep(r *vk.Run, c DeepCase) *vk.Fail {
 
 // ---- the test -----------------------------------------------------------------------------------
 
-const rule = "(E1) every string of length <= L (quick 4, thorough 6) over {a \\ < % > = # \"} that an independent reference scanner (written from the two escape rules of the statement) classifies as literal text, alone and next to a tag in the frames s+TAG, TAG+s, s+TAG+s2 (7 tails), and directly after the opening / directly before the closing tag of a block: IF{s+TAG}, IF{TAG+s}, ELSE{TAG+s}, ELSEIF{s+TAG+s}, FOR2{s+TAG}, FOR2{TAG+s}, FN{s+TAG+s}, BLK{TAG+s}, SILENT-IF{s+TAG+s}; TAG is an output tag, and for strings of length <= 5 (quick 3) also a code tag, a comment tag and an output tag without blanks; strings with a live opener or with >=3 backslashes before <% are outside the statement and counted under excluded. (E2) every string VALUE of length <= 5 (quick 4) over {a \\ \" ` % > < # newline} spelled as a double-quoted and as a back-quoted literal where expressible, at 12 places (top, if, else-if, for, helper block, helper argument, template-function argument, array element, let, after a silent tag holding the same literal, without blanks, with line breaks); the output must decode to exactly that value. (E3) every ordered pair of values of length <= 2 over {a \\ \" ` %> <% newline #} x the four quote combinations in one template (two tags, two lets in one tag, two arguments of one call). (E4) every comment body of length <= 3 (thorough 4) over {a blank % > < # \" ` \\ = newline -} not containing %>, in 7 frames (alone, before / after a tag, in a block, two in a row, in a loop, between let and use). (E5) every ordered pair (thorough: and triple) of 37 representative segments (among them an array printed, changed by the next tag and printed again - each tag prints what the array held when it ran - and ONE shared array value printed whole, alone and twice inside one array literal: an array prints as its elements in order however often one tag or one block prints it) in 12 kinds of surroundings (top level, if, three else-if chain positions, two loops, function called twice / from a loop, helper block rendered once / twice, silent block). (E6) N blocks nested in each other (if, else, single-iteration for, mixed, with a silent block and a comment innermost, template functions, helper blocks) with text on both sides at every level, N up to 1500 (thorough 5000; functions and helpers up to 400; beyond 64 levels a refusal with an error is accepted, a render that succeeds must be right); N tags, code tags, comments, blocks, loop iterations in a row (up to 20000), 1 MiB of text and a 1 MiB string. (R1) texts of up to 40 fragments over {\\ < % > = # quotes newline \\<% \\\\ any byte} with the four fixed tags strewn in, at top level and as the body of every kind of block, against the reference scanner. (R) random segment sequences: literal text over an alphabet with <, %, >, \\, =, #, quotes, braces, newlines, other blanks, multi-byte and invalid bytes, delimiter look-alikes; \\<%..%> and \\\\<%..%> forms; output tags of ints, string variables, trusted HTML, string literals of arbitrary contents, the innermost loop variable / function parameter, one shared array value printed whole in five forms (alone, twice / three times inside an array literal, through a helper, between two printings of a let-bound literal array), an array printed, changed (itself or a nested array) and printed again; 36 kinds of silent tags (expressions of every value type incl. HTML-typed, let, assignment, helper calls, several statements in one tag, line comments, blocks inside the tag, silent if / for with text bodies); comment tags with arbitrary contents; at top level and nested to depth 3 in <%= if %>, else, every position of an else-if chain, <%= for %> x n over 9 kinds of iterables (slice, array literal, range, until, Go array, pointer, strings, one-entry map, two-variable form), template functions with a parameter (called once, twice, twice inside one block, from a loop, never, from a code tag first), block helpers rendering their block once or twice, and SILENT blocks (if, else-if chain, for, helper block, function called from a code tag) whose whole arbitrary body must contribute nothing; five spellings of the blanks inside the tag delimiters (one blank, none, newline, tab, CRLF). Every generated template is rendered with Render, then parsed once and executed twice with other values of every variable and again with the first values; every output is compared only after an unrelated longer render (an output must not share memory with engine state). Oracle: the expected part list built alongside (literal / escaped payload / verbatim payload) checked with the entity-decoding matcher. (F, thorough) native fuzzing of the text scanner against the reference scanner. Non-trivial = text with \\, < or %, a string literal with a delimiter/quote/newline, a silent tag inside a block, a comment, or a multi-line construct; distinct by template."
+const rule = "(E1) every string of length <= L (quick 4, thorough 6) over {a \\ < % > = # \"} that an independent reference scanner (written from the two escape rules of the statement) classifies as literal text, alone and next to a tag in the frames s+TAG, TAG+s, s+TAG+s2 (7 tails), and directly after the opening / directly before the closing tag of a block: IF{s+TAG}, IF{TAG+s}, ELSE{TAG+s}, ELSEIF{s+TAG+s}, FOR2{s+TAG}, FOR2{TAG+s}, FN{s+TAG+s}, BLK{TAG+s}, SILENT-IF{s+TAG+s}; TAG is an output tag, and for strings of length <= 5 (quick 3) also a code tag, a comment tag and an output tag without blanks; strings with a live opener or with >=3 backslashes before <% are outside the statement and counted under excluded. (E2) every string VALUE of length <= 5 (quick 4) over {a \\ \" ` % > < # newline} spelled as a double-quoted and as a back-quoted literal where expressible, at 12 places (top, if, else-if, for, helper block, helper argument, template-function argument, array element, let, after a silent tag holding the same literal, without blanks, with line breaks); the output must decode to exactly that value. (E3) every ordered pair of values of length <= 2 over {a \\ \" ` %> <% newline #} x the four quote combinations in one template (two tags, two lets in one tag, two arguments of one call). (E4) every comment body of length <= 3 (thorough 4) over {a blank % > < # \" ` \\ = newline -} not containing %>, in 11 frames (alone, before / after a tag, in a block, two in a row, in a loop, between let and use, followed by literal text that looks like the rest of a tag: a closer after blanks / a line break / a line comment). (E5) every ordered pair (thorough: and triple) of 37 representative segments (among them an array printed, changed by the next tag and printed again - each tag prints what the array held when it ran - and ONE shared array value printed whole, alone and twice inside one array literal: an array prints as its elements in order however often one tag or one block prints it) in 12 kinds of surroundings (top level, if, three else-if chain positions, two loops, function called twice / from a loop, helper block rendered once / twice, silent block). (E6) N blocks nested in each other (if, else, single-iteration for, mixed, with a silent block and a comment innermost, template functions, helper blocks) with text on both sides at every level, N up to 1500 (thorough 5000; functions and helpers up to 400; beyond 64 levels a refusal with an error is accepted, a render that succeeds must be right); N tags, code tags, comments, blocks, loop iterations in a row (up to 20000), 1 MiB of text and a 1 MiB string. (R1) texts of up to 40 fragments over {\\ < % > = # quotes newline \\<% \\\\ any byte} with the four fixed tags strewn in, at top level and as the body of every kind of block, against the reference scanner. (R) random segment sequences: literal text over an alphabet with <, %, >, \\, =, #, quotes, braces, newlines, other blanks, multi-byte and invalid bytes, delimiter look-alikes; \\<%..%> and \\\\<%..%> forms; output tags of ints, string variables, trusted HTML, string literals of arbitrary contents, the innermost loop variable / function parameter, one shared array value printed whole in five forms (alone, twice / three times inside an array literal, through a helper, between two printings of a let-bound literal array), an array printed, changed (itself or a nested array) and printed again; 36 kinds of silent tags (expressions of every value type incl. HTML-typed, let, assignment, helper calls, several statements in one tag, line comments, blocks inside the tag, silent if / for with text bodies); comment tags with arbitrary contents; at top level and nested to depth 3 in <%= if %>, else, every position of an else-if chain, <%= for %> x n over 9 kinds of iterables (slice, array literal, range, until, Go array, pointer, strings, one-entry map, two-variable form), template functions with a parameter (called once, twice, twice inside one block, from a loop, never, from a code tag first), block helpers rendering their block once or twice, and SILENT blocks (if, else-if chain, for, helper block, function called from a code tag) whose whole arbitrary body must contribute nothing; five spellings of the blanks inside the tag delimiters (one blank, none, newline, tab, CRLF). Every generated template is rendered with Render, then parsed once and executed twice with other values of every variable and again with the first values; every output is compared only after an unrelated longer render (an output must not share memory with engine state). Oracle: the expected part list built alongside (literal / escaped payload / verbatim payload) checked with the entity-decoding matcher. (F, thorough) native fuzzing of the text scanner against the reference scanner. Non-trivial = text with \\, < or %, a string literal with a delimiter/quote/newline, a silent tag inside a block, a comment, or a multi-line construct; distinct by template."
 
 func setup(t *testing.T) *vk.Run {
 	r := vk.Start(t, "C02", rule,
